@@ -1,0 +1,36 @@
+//go:build verif
+
+// Package verifhook re-exports, for conformance checking only (build tag
+// verif), the tokenizer of internal/parser so that every token's class, text
+// and source position can be observed from outside the module.
+package verifhook
+
+import (
+	"io"
+
+	"github.com/cedar-policy/cedar-go/internal/parser"
+)
+
+// Token mirrors parser.Token.
+type Token struct {
+	Type                 int // 0 EOF, 1 identifier, 2 integer, 3 reserved keyword, 4 string, 5 operator, 6 unknown
+	Text                 string
+	Offset, Line, Column int
+}
+
+func convert(toks []parser.Token, err error) ([]Token, error) {
+	if err != nil {
+		return nil, err
+	}
+	out := make([]Token, len(toks))
+	for i, t := range toks {
+		out[i] = Token{Type: int(t.Type), Text: t.Text, Offset: t.Pos.Offset, Line: t.Pos.Line, Column: t.Pos.Column}
+	}
+	return out, nil
+}
+
+// Tokenize tokenizes a whole byte slice.
+func Tokenize(src []byte) ([]Token, error) { return convert(parser.Tokenize(src)) }
+
+// TokenizeReader tokenizes everything the reader delivers.
+func TokenizeReader(r io.Reader) ([]Token, error) { return convert(parser.TokenizeReader(r)) }
